@@ -11,7 +11,7 @@ ID = 'C02'
 
 MANIFEST = {
     'engine': 'symx',
-    'text': 'Bounded symbolic model checking of the real kernel source with symbolic vectors AND a symbolic injective relabelling map of one side at a time (both-side invariance follows by composing the two): z3 shows f(Y, g(X), c) == f(Y, X, c) and f(h(Y), X, c) == f(Y, X, c) for c in {False, True}; a second obligation shows that with correction on the result is the corrected formula whenever the vectors differ somewhere and the entropy exactly when they are identical (so equal code sums alone never trigger the shortcut). The relabelling obligations are also run with sparse target codes {0, 3, 1000, 70000} (offsets and gaps far larger than the vector length).',
+    'text': 'Bounded symbolic model checking of the real kernel source with symbolic vectors AND a symbolic injective relabelling map of one side at a time (both-side invariance follows by composing the two): z3 shows f(Y, g(X), c) == f(Y, X, c) and f(h(Y), X, c) == f(Y, X, c) for c in {False, True}; a second obligation shows that with correction on the result is the corrected formula whenever the vectors differ somewhere and the entropy exactly when they are identical (so equal code sums alone never trigger the shortcut). The relabelling obligations are also run with sparse target codes {0, 3, 1000, 70000, 2^20-2, 2^20-1} on one side and on both sides (offsets and gaps far larger than the vector length, adjacent huge codes). Condition coding drives the real mixed_rank_graph (category coding of batch columns, real pandas) with the number of categories (both sides of the int8/int16/int32 code-width borders of pandas), the sort order of the category names and the heuristic chosen by the solver, and compares every emitted score with the compiled estimator on an independent injective coding of the same column.',
     'note': 'Exact reals (float32 rounding outside); numba/numpy stand-ins; bounds n<=3 with codes<3 mapped into <4 for the relabelling obligations, n<=4 codes<3 (thorough n<=5) for the shortcut obligation; counterexamples are replayed on the compiled kernel.',
     'technique': 'symbolic execution of the real Python source with z3; relabelling map = K symbolic ints under Distinct',
 }
@@ -26,24 +26,82 @@ INFO = {
     'explanation': 'Vectors and an injective relabelling map are symbolic; the real estimator runs on the original and the relabelled pair; per path z3 decides whether the two results can differ. '
                    'Shortcut obligation: result(c=True) == (entropy if identical else H(Y*|X)-H(Y|X)).',
     'bounds': {t: {c: [str(x) for x in v] for c, v in b.items()} for t, b in BOUNDS.items()},
-    'outside': ['float32 rounding', 'the category coding done by pandas (exercised in C05)', 'larger n / codes'],
+    'outside': ['float32 rounding', 'larger n / codes', 'category coding: cardinalities other than the listed ones (two per code-width regime of pandas, at its borders)'],
     'assumptions': ['numba stub, xnp stand-in, exact division / if-conversion transforms (see C01)',
                     'one side relabelled at a time; both-side invariance follows by composition at the larger code bound'],
     'job_timeout': {'quick': 240, 'thorough': 2400},
 }
 
 
-SPARSE = [0, 3, 1000, 70000]      # sparse recodings: offsets and gaps far larger than the vector length
+# category coding of batch columns (core_ranking.py:108-114): pandas chooses the code width by the number of categories (int8 up to
+# 127, int16 up to 32767, int32 beyond), so the coding step has three regimes; one or two cardinalities per regime, at the borders
+CARD = {'quick': [3, 127, 128, 200, 32767, 32768, 33000, 66000], 'thorough': [3, 127, 128, 129, 200, 32767, 32768, 32769, 40000, 66000]}
+RENAMES = ['ascending', 'descending', 'scrambled']
+CODING_HEUR = ['MI-numba-randomized', 'MI-numba-3mr']
+for _t in CARD:
+    INFO['bounds'][_t]['coding'] = [f'{k} categories x names in {RENAMES} order x {CODING_HEUR if k <= 200 else CODING_HEUR[:1]}' for k in CARD[_t]]
+
+
+HEAVY_RANKS = (5, 133, 261, 32773, 65541)      # sort ranks 2^7, 2^8, 2^15 and 2^16 apart: codes that a too narrow integer would identify
+
+
+def coding_frame(K, rename):
+    """About 2K rows: column hi takes K distinct values; a few heavy categories - chosen by the SORT RANK of their name, i.e. by the
+    code pandas gives them - carry different label distributions, so the score moves if any two of them are identified. The names
+    are assigned in ascending / descending / scrambled order of the ids."""
+    step = next(p for p in (7919, 104729, 1299709) if K % p and p % K)
+    rank = {'ascending': lambda i: i, 'descending': lambda i: K - 1 - i, 'scrambled': lambda i: (i * step + 11) % K}[rename]
+    inv = {rank(i): i for i in range(K)}
+    assert len(inv) == K
+    heavy = [inv[r] for r in sorted({r % K for r in HEAVY_RANKS})]
+    H = len(heavy)
+    E = max(60, K // H) * H          # the heavy categories carry about half of the rows
+    ids = list(range(K)) + [heavy[j % H] for j in range(E)]
+    lab = [str(i % 2) for i in range(K)] + [('1' if (j // H) % (H + 1) <= j % H else '0') for j in range(E)]
+    return ids, [f'v{rank(i):07d}' for i in ids], lab, heavy
+
+
+def first_codes(v):
+    seen = {}
+    return [seen.setdefault(x, len(seen)) for x in v]
+
+
+def coding_probs(K, rename, heur):
+    from harness import C05
+    ids, hi, lab, heavy = coding_frame(K, rename)
+    cols = ['hi', 'label']
+    frame = [[a, b] for a, b in zip(hi, lab)]
+    trip, calls, warn = C05.drive(cols, frame, 'label', heur, True)
+    corr = heur == 'MI-numba-randomized'
+    exp = KM.real_mi(first_codes(ids), first_codes(lab), 1.0, corr)
+    if len(heavy) > 1:      # the frame must be able to tell: identifying two heavy categories moves the reference score
+        merged = KM.real_mi(first_codes([heavy[0] if v == heavy[-1] else v for v in ids]), first_codes(lab), 1.0, corr)
+        if abs(merged - exp) < 1e-3:
+            raise symx.HarnessError(f'coding frame for {K} categories is not sensitive to identified categories ({exp} vs {merged})')
+    got = [s for a, b, s in trip if {a, b} == {'hi', 'label'}]
+    if not got:
+        return [f'no (hi, label) score emitted'], None
+    bad = [s for s in got if not KM.close(float(s), exp, 1e-5)]
+    if bad:
+        return [f'{heur}, {K} categories named in {rename} order: the batch scores (hi, label) = {bad[0]:.6f}, the estimator on an injective coding of the same column gives {exp:.6f}'], (bad[0], exp)
+    return [], (got[0], exp)
+
+
+SPARSE = [0, 3, 1000, 70000, 2 ** 20 - 2, 2 ** 20 - 1]      # sparse recodings: gaps far larger than the vector length, and two adjacent codes at the top of the range
 
 
 def jobs(tier):
     KM.warm()
     KM.kernel()
     out = []
-    for cond in ('relabel-X', 'relabel-Y'):
+    for cond in ('relabel-X', 'relabel-Y', 'relabel-both'):
         for x0 in range(2):
             for c in (False, True):
-                out.append({'cond': cond, 'n': 3, 'K': 2, 'K2': 4, 'corr': c, 'pins': {'x0': x0}, 'sparse': True, 'weight': 200, 'label': f'sparse recoding into {SPARSE},x0={x0},corr={c}'})
+                out.append({'cond': cond, 'n': 2 if cond == 'relabel-both' else 3, 'K': 2, 'K2': 4, 'corr': c, 'pins': {'x0': x0}, 'sparse': True, 'weight': 200,
+                            'label': f'sparse recoding into {SPARSE},x0={x0},corr={c}'})
+    for ki in range(len(CARD[tier])):
+        for pins in ([{'card': ki, 'rename': r} for r in range(len(RENAMES))] if CARD[tier][ki] > 1000 else [{'card': ki}]):
+            out.append({'cond': 'coding', 'n': 0, 'K': CARD[tier][ki], 'K2': 0, 'corr': True, 'tier': tier, 'pins': pins, 'weight': 6, 'label': f'{CARD[tier][ki]} categories {pins}'})
     for cond, lst in BOUNDS[tier].items():
         for b in lst:
             n, K = b[0], b[1]
@@ -55,7 +113,38 @@ def jobs(tier):
     return out
 
 
+def run_coding(job):
+    cards = CARD[job['tier']]
+    st = {}
+
+    def setup(ctx):
+        st['card'], st['ren'], st['h'] = z3.Int('card'), z3.Int('rename'), z3.Int('h')
+        ctx.assume(st['card'] >= 0, st['card'] < len(cards), st['ren'] >= 0, st['ren'] < len(RENAMES), st['h'] >= 0, st['h'] < len(CODING_HEUR))
+        # MI-numba-3mr scores the column against itself as well, which is quadratic in the number of categories: small cardinalities only
+        ctx.assume(z3.Or(st['h'] == 0, z3.Or([st['card'] == i for i, k in enumerate(cards) if k <= 200])))
+        for k, v in job['pins'].items():
+            ctx.assume(z3.Int(k) == v)
+
+    def body(ctx, out):
+        K = cards[int(SInt(st['card'], 0, len(cards) - 1))]
+        ren = RENAMES[int(SInt(st['ren'], 0, len(RENAMES) - 1))]
+        heur = CODING_HEUR[int(SInt(st['h'], 0, len(CODING_HEUR) - 1))]
+        w = {'cond': 'coding', 'K': K, 'rename': ren, 'heur': heur, 'corr': heur == 'MI-numba-randomized'}
+        try:
+            probs, vals = coding_probs(K, ren, heur)
+        except Exception as e:
+            probs, vals = [f'{type(e).__name__}: {e}'], None
+        if probs or out.twin:
+            out.concrete_fail(w, probs[0] if probs else 'twin')
+        else:
+            out.concrete_ok()
+        out.sample({'categories': K, 'names': ren, 'heuristic': heur, 'score': vals and vals[0]})
+    return hutil.run_symx(job, setup, body)
+
+
 def run_job(job):
+    if job['cond'] == 'coding':
+        return run_coding(job)
     n, K, K2, cond, corr = job['n'], job['K'], job['K2'], job['cond'], job['corr']
     sparse = bool(job.get('sparse'))
     f = KM.kernel()['mutual_info_estimator_numba']
@@ -72,16 +161,22 @@ def run_job(job):
                     ctx.assume(v >= 0, v < K2)
             ctx.assume(z3.Distinct(*g))
             st['g'] = g
+            if cond == 'relabel-both':
+                h = [z3.Int(f'h{i}') for i in range(K)]
+                for v in h:
+                    ctx.assume(z3.Or([v == c for c in SPARSE]))
+                ctx.assume(z3.Distinct(*h))
+                st['h'] = h
         else:
             st['HY'] = KM.ref_entropy(st['Y'], n, K)
             st['corr'] = KM.ref_corrected(st['X'], st['Y'], n, K)
 
-    def mapped(vec):
+    def mapped(vec, key='g'):
         out = []
         for e in vec:
-            t = st['g'][K - 1]
+            t = st[key][K - 1]
             for k in range(K - 2, -1, -1):
-                t = z3.If(e == k, st['g'][k], t)
+                t = z3.If(e == k, st[key][k], t)
             out.append(SInt(t, 0, max(SPARSE), SPARSE) if sparse else SInt(t, 0, K2 - 1))
         return xnp.Arr(out, 'int32')
 
@@ -90,6 +185,8 @@ def run_job(job):
              'X': [m.eval(v, model_completion=True).as_long() for v in st['X']]}
         if 'g' in st:
             w['map'] = [m.eval(v, model_completion=True).as_long() for v in st['g']]
+        if 'h' in st:
+            w['map_y'] = [m.eval(v, model_completion=True).as_long() for v in st['h']]
         return w
 
     def body(ctx, out):
@@ -98,8 +195,8 @@ def run_job(job):
         if cond.startswith('relabel'):
             # The statement prescribes the entropy for element-wise identical vectors and the corrected formula otherwise, so with
             # correction on the invariance obligation is restricted to maps that preserve "identical / not identical".
-            X2 = mapped(st['X']) if cond == 'relabel-X' else KM.arrs(st['X'], st['Y'], K)[0]
-            Y2 = mapped(st['Y']) if cond == 'relabel-Y' else KM.arrs(st['X'], st['Y'], K)[1]
+            X2 = mapped(st['X']) if cond in ('relabel-X', 'relabel-both') else KM.arrs(st['X'], st['Y'], K)[0]
+            Y2 = mapped(st['Y'], 'h' if cond == 'relabel-both' else 'g') if cond in ('relabel-Y', 'relabel-both') else KM.arrs(st['X'], st['Y'], K)[1]
             same1 = z3.And([st['X'][i] == st['Y'][i] for i in range(n)])
             same2 = z3.And([symx.zint(X2.data[i]) == symx.zint(Y2.data[i]) for i in range(n)])
             got2 = SReal.of(f(Y2, X2, 1.0, corr))
@@ -135,12 +232,17 @@ def replay(w):
 
 
 def _replay(w):
+    if w['cond'] == 'coding':
+        probs, vals = coding_probs(w['K'], w['rename'], w['heur'])
+        if probs:
+            return {'reproduced': True, 'signature': 'C02:batch-coding', 'what': probs[0]}
+        return {'reproduced': False, 'what': f'batch score equals the estimator on an injective coding: {vals}'}
     Y, X, corr = w['Y'], w['X'], w['corr']
     got = KM.real_mi(Y, X, 1.0, corr)
     if w['cond'].startswith('relabel'):
         g = w['map']
-        X2 = [g[v] for v in X] if w['cond'] == 'relabel-X' else X
-        Y2 = [g[v] for v in Y] if w['cond'] == 'relabel-Y' else Y
+        X2 = [g[v] for v in X] if w['cond'] in ('relabel-X', 'relabel-both') else X
+        Y2 = [(w.get('map_y') or g)[v] for v in Y] if w['cond'] in ('relabel-Y', 'relabel-both') else Y
         got2 = KM.real_mi(Y2, X2, 1.0, corr)
         if corr and (X == Y) != (X2 == Y2):
             return {'reproduced': False, 'what': 'map does not preserve identical/non-identical (outside the obligation)'}
